@@ -13,7 +13,7 @@ META = {
     'modules': ['local'],
     'functions': ['xrspatial.local.' + f for f in ('cell_stats', 'combine', 'lesser_frequency', 'equal_frequency', 'greater_frequency', 'lowest_position',
                                                    'highest_position', 'rank')],
-    'bounds': {'quick': 'datasets of 3 layers (4 for lowest/highest position), shapes 1x2 (every value symbolic, NaN allowed, ties possible) and 2x3 (one symbolic cell at each '
+    'bounds': {'quick': 'datasets of 3 layers (4 for lowest/highest position; 2 and 4 for the median), shapes 1x2 (every value symbolic, NaN allowed, ties possible) and 2x3 (one symbolic cell at each '
                         'position, the rest concrete) to expose the column-count reshape; data_vars: all, subsets and non-dataset orders; reference layer symbolic integer in 1..n+1; mixed layer dtypes (int32 / float64 / float32 and float32 / int64 / float64) for rank, cell_stats mean / max, lesser_frequency, highest_position, combine',
                'thorough': '4 layers everywhere, 5 for the position operators, 1x3 all-symbolic'},
     'stubs': ['xarray.Dataset = sx.symxr mini Dataset', 'dict / Counter / sorted / list.index on symbolic scalars work through forking == and < (constant hash)'],
@@ -30,6 +30,9 @@ def jobs(tier, seed):
     L = 3 if tier == 'quick' else 4
     for f in FUNCS:
         out.append({'name': 'cell_stats-' + f, 'op': 'cell_stats', 'func': f, 'layers': L, 'shape': [1, 2], 'sym': 'all', 'data_vars': None})
+    # an even number of layers: the median is the mean of the two middle values
+    for n in (2, 4):
+        out.append({'name': 'cell_stats-median-%d-layers' % n, 'op': 'cell_stats', 'func': 'median', 'layers': n, 'shape': [1, 1], 'sym': 'all', 'data_vars': None})
     out.append({'name': 'cell_stats-sum-subset-reordered', 'op': 'cell_stats', 'func': 'sum', 'layers': 3, 'shape': [1, 2], 'sym': 'all', 'data_vars': [2, 0]})
     for op in ('lesser_frequency', 'equal_frequency', 'greater_frequency', 'rank'):
         out.append({'name': op + '-all', 'op': op, 'layers': L, 'shape': [1, 2], 'sym': 'all', 'data_vars': None, 'ref': 0})
@@ -180,6 +183,14 @@ def body(ctx, job):
                 ctx.check('cell_stats-median', Implies(Not(anynan), And(2 * le >= n, 2 * ge >= n)), info)
                 if n % 2:
                     ctx.check('cell_stats-median-is-a-layer-value', Implies(Not(anynan), Or(*[o == x for x in v])), info)
+                # exact: the middle order statistic, or the mean of the two middle ones (sorting network of min / max)
+                srt = list(v)
+                for a in range(n):
+                    for b in range(n - 1 - a):
+                        lo_, hi_ = ite(srt[b] <= srt[b + 1], srt[b], srt[b + 1]), ite(srt[b] <= srt[b + 1], srt[b + 1], srt[b])
+                        srt[b], srt[b + 1] = lo_, hi_
+                want2 = 2 * srt[n // 2] if n % 2 else srt[n // 2 - 1] + srt[n // 2]
+                ctx.check('cell_stats-median-exact', Implies(Not(anynan), ctx.close(2 * o, want2, TOL64)), info)
             elif f == 'std':
                 sm = Sum(v)
                 sq = Sum([x * x for x in v])
